@@ -296,3 +296,8 @@ def run(chk):
     tablerules.c04_cardinalities(chk, vts)
 
     chk.assume('the verdict of validate() as a function of the message is a run-time result and is not decided')
+
+    chk.rule('C04-A', 'every argument of the validator and of the datatype / factory helpers is used')
+    from . import forwarding as _fw
+    nd_ = _fw.dead_params(chk, c, 'C04-A', lambda fi: fi.module.name in ('validation', 'factories', 'utils', '__init__', 'base_datatypes', 'mllp') or fi.module.name.endswith('.base_datatypes'))
+    chk.floor('parameters examined (C04-A)', nd_, 80)
